@@ -1563,6 +1563,11 @@ class MindsDBParser(Parser):
     def star(self, p):
         return Star()
 
+    # IS NOT written as two tokens (the words are separated by a comment, so the lexer's IS_NOT did not match)
+    @_('expr IS NOT expr %prec IS_NOT')
+    def expr(self, p):
+        return BinaryOperation(op=f'{p[1]} {p[2]}', args=(p[0], p[3]))
+
     @_('expr PLUS expr',
        'expr MINUS expr',
        'expr MATCH expr',
